@@ -64,6 +64,14 @@ CHECKS = {
             "as bounded logical steps and CPU per input; held on the inputs observed.",
             "Trusted: envelope constants derived from the corpus calibration; Lark's exception hierarchy.",
             "DESIGN.md 2 C11"),
+    "C12": ("icontract snapshot+ensure purity contracts (argument fingerprints) on the real public functions + audit hook (no writes); "
+            "history relation reused-vs-fresh worker objects with hidden state asserted at quiescent points; thread stress under a "
+            "1e-5 s switch interval and a sys.monitoring yield injector, compared with the sequential reference",
+            "Purity over vocabulary/generated/corpus/edited dictionaries; reuse sequences mixing failing parses, comments, positions "
+            "and versions; 6-16 threads on different and identical inputs with the thread switches inside mappyfile code counted. "
+            "'Any schedule' is restated as the interleavings actually observed.",
+            "Trusted: canonical fingerprints (mf/core.py); the GIL schedules produced under yield injection are a sample, not all schedules.",
+            "DESIGN.md 2 C12"),
     "C13": ("relation over four recorded parse events (include_position x include_comments, through loads/open/load) and their "
             "print events; 'apart from comment text' decided by an independent scanner",
             "All corpus files and generated documents with random and placed comments; stripped results must equal the plain load "
